@@ -15,7 +15,9 @@ structure Params where
   funcRecover : Bool := true    -- FunctionCall.Evaluate
   methodRecover : Bool := true  -- MethodCall.Evaluate
   threeRecover : Bool := true   -- ThreeLevelCall.Evaluate
-deriving Repr, Inhabited
+  /-- the arithmetic and comparison primitives (core.Add/Sub/Mul/Div, the comparison block) -/
+  arith : AOp → Val → Val → Out Val := goArith
+  cmp   : COp → Val → Val → Option Bool := goCmp
 
 /-! ### injected function library (semantics shared with the Go harness) -/
 
@@ -171,6 +173,72 @@ def skipNil : Option Val → Option Val
   | some .nil => none
   | o => o
 
+/-- sequencing of interpreter steps: continue only with a value -/
+def bindR {α β : Type} (r : Res α × Env) (k : α → Env → Res β × Env) : Res β × Env :=
+  match r with
+  | (.ok a, e) => k a e
+  | (.err c, e) => (.err c, e)
+  | (.panic, e) => (.panic, e)
+
+def mapSome (r : Res Val × Env) : Res (Option Val) × Env :=
+  match r with
+  | (.ok v, e) => (.ok (some v), e)
+  | (.err c, e) => (.err c, e)
+  | (.panic, e) => (.panic, e)
+
+/-- `&&` / `||` of Expression.Evaluate on two evaluated operands. -/
+def logicOf (p : Pos) (lop : LOp) (lv rv : Val) : Res (Option Val) :=
+  match lv, rv with
+  | .b x, .b y => .ok (some (.b (match lop with | .and => x && y | .or => x || y)))
+  | _, _ => .err (some p.line)
+
+/-- The comparison block on two evaluated operands: string/string and bool/bool with an
+    unsupported operator return the "Can't be recognized" error; every other miss leaves `b`
+    as it was. -/
+def cmpOf (P : Params) (p : Pos) (cop : COp) (lv rv : Val) (bv : Option Val) : Res (Option Val) :=
+  match P.cmp cop lv rv with
+  | some r => .ok (some (.b r))
+  | none =>
+    match lv, rv with
+    | .b _, .b _ => .err (some p.line)
+    | _, _ => .ok bv
+
+/-- The `LAST:` block: math, then atom, then b; `!` negates a boolean. -/
+def lastPick (p : Pos) (notOp : Bool) (mv av bv : Option Val) : Res Val :=
+  let pick : Option Val := match skipNil mv with
+    | some v => some v
+    | none => match skipNil av with | some v => some v | none => skipNil bv
+  match pick with
+  | none => .err (some p.line)
+  | some v =>
+    if notOp then
+      (match v.bool? with
+       | some x => .ok (.b (!x))
+       | none => .panic)            -- Value.Bool() on a non-bool
+    else .ok v
+
+/-- What a call does once its arguments are evaluated: recover() turns a panic (also one raised
+    while evaluating the arguments) into an error citing the call's line; lookup / call errors
+    are prefixed with that line too. -/
+def finishCall (P : Params) (kind : CallKind) (line : Nat) (name : String) (r : Res (List Val) × Env) :
+    Res Val × Env :=
+  let rec? : Bool := match kind with
+    | .func => P.funcRecover | .method => P.methodRecover | .three => P.threeRecover
+  match r with
+  | (.err c, env1) => (.err c, env1)
+  | (.panic, env1) => (if rec? then .err (some line) else .panic, env1)
+  | (.ok vs, env1) =>
+    let r2 := match kind with
+      | .func => execFunc env1 name vs
+      | .method => execMethod env1 name vs
+      | .three => (.err none, env1)
+    match r2 with
+    | (.ok v, env2) => (.ok v, env2)
+    | (.err _, env2) => (.err (some line), env2)
+    | (.panic, env2) => (if rec? then .err (some line) else .panic, env2)
+
+def OExpr.isNone : OExpr → Bool | .none => true | .some _ => false
+
 mutual
   def evalAtom (P : Params) (env : Env) : Atom → Res Val × Env
     | .var _ name => (getValue env name, env)
@@ -182,21 +250,7 @@ mutual
   /-- FunctionCall / MethodCall / ThreeLevelCall `.Evaluate`: recover() turns a panic into an
       error citing the call's line; lookup/call errors are prefixed with that line too. -/
   def evalCall (P : Params) (env : Env) : Call → Res Val × Env
-    | .mk kind p name args =>
-      let rec? : Bool := match kind with
-        | .func => P.funcRecover | .method => P.methodRecover | .three => P.threeRecover
-      match evalArgs P env args with
-      | (.err c, env1) => (.err c, env1)
-      | (.panic, env1) => (if rec? then .err (some p.line) else .panic, env1)
-      | (.ok vs, env1) =>
-        let r := match kind with
-          | .func => execFunc env1 name vs
-          | .method => execMethod env1 name vs
-          | .three => (.err none, env1)
-        match r with
-        | (.ok v, env2) => (.ok v, env2)
-        | (.err _, env2) => (.err (some p.line), env2)
-        | (.panic, env2) => (if rec? then .err (some p.line) else .panic, env2)
+    | .mk kind p name args => finishCall P kind p.line name (evalArgs P env args)
 
   def evalArgs (P : Params) (env : Env) : Args → Res (List Val) × Env
     | .nil => (.ok [], env)
@@ -232,7 +286,7 @@ mutual
              | (.ok rv, env2) =>
                (match op with
                 | some o =>
-                  (match goArith o lv rv with
+                  (match P.arith o lv rv with
                    | .ok v => (.ok v, env2)
                    | .err => (.err (some p.line), env2)
                    | .panic => (.panic, env2))
@@ -246,93 +300,40 @@ mutual
     | .none => (.panic, env)              -- nil *MathExpression dereferenced
     | .some m => evalMath P env m
 
+  def evalOMathOpt (P : Params) (env : Env) : OMath → Res (Option Val) × Env
+    | .none => (.ok none, env)
+    | .some m => mapSome (evalMath P env m)
+
+  def evalOAtomOpt (P : Params) (env : Env) : OAtom → Res (Option Val) × Env
+    | .none => (.ok none, env)
+    | .some a => mapSome (evalAtom P env a)
+
+  def evalOExprOpt (P : Params) (env : Env) : OExpr → Res (Option Val) × Env
+    | .none => (.ok none, env)
+    | .some e => mapSome (evalExpr P env e)
+
   def evalOExprPanic (P : Params) (env : Env) : OExpr → Res Val × Env
     | .none => (.panic, env)              -- nil *Expression dereferenced
     | .some e => evalExpr P env e
 
-  /-- Expression.Evaluate. -/
+  /-- Expression.Evaluate: math, atom and the parenthesised single operand are computed first,
+      in this order; then the logical, then the comparison operator; then `LAST:`. -/
   def evalExpr (P : Params) (env : Env) : Expr → Res Val × Env
     | .mk p left right atom math logic cmp notOp =>
-      -- math, atom, and the parenthesised single operand are computed first, in this order
-      let rm : Res (Option Val) × Env := match math with
-        | .some m => (match evalMath P env m with
-            | (.ok v, e1) => (.ok (some v), e1) | (.err c, e1) => (.err c, e1) | (.panic, e1) => (.panic, e1))
-        | .none => (.ok none, env)
-      match rm with
-      | (.err c, e1) => (.err c, e1)
-      | (.panic, e1) => (.panic, e1)
-      | (.ok mv, e1) =>
-        let ra : Res (Option Val) × Env := match atom with
-          | .some a => (match evalAtom P e1 a with
-              | (.ok v, e2) => (.ok (some v), e2) | (.err c, e2) => (.err c, e2) | (.panic, e2) => (.panic, e2))
-          | .none => (.ok none, e1)
-        match ra with
-        | (.err c, e2) => (.err c, e2)
-        | (.panic, e2) => (.panic, e2)
-        | (.ok av, e2) =>
-          let rb0 : Res (Option Val) × Env := match right, left with
-            | .none, .some l => (match evalExpr P e2 l with
-                | (.ok v, e3) => (.ok (some v), e3) | (.err c, e3) => (.err c, e3) | (.panic, e3) => (.panic, e3))
-            | _, _ => (.ok none, e2)
-          match rb0 with
-          | (.err c, e3) => (.err c, e3)
-          | (.panic, e3) => (.panic, e3)
-          | (.ok bv0, e3) =>
-            -- logical operator
-            let rl : Res (Option Val) × Env := match logic with
-              | none => (.ok bv0, e3)
-              | some lop =>
-                (match evalOExprPanic P e3 left with
-                 | (.ok lv, e4) =>
-                   (match evalOExprPanic P e4 right with
-                    | (.ok rv, e5) =>
-                      (match lv, rv with
-                       | .b x, .b y => (.ok (some (.b (match lop with | .and => x && y | .or => x || y))), e5)
-                       | _, _ => (.err (some p.line), e5))
-                    | (.err c, e5) => (.err c, e5)
-                    | (.panic, e5) => (.panic, e5))
-                 | (.err c, e4) => (.err c, e4)
-                 | (.panic, e4) => (.panic, e4))
-            match rl with
-            | (.err c, e4) => (.err c, e4)
-            | (.panic, e4) => (.panic, e4)
-            | (.ok bv1, e4) =>
-              -- comparison operator
-              let rc : Res (Option Val) × Env := match cmp with
-                | none => (.ok bv1, e4)
-                | some cop =>
-                  (match evalOExprPanic P e4 left with
-                   | (.ok lv, e5) =>
-                     (match evalOExprPanic P e5 right with
-                      | (.ok rv, e6) =>
-                        (match goCmp cop lv rv with
-                         | some r => (.ok (some (.b r)), e6)
-                         | none =>
-                           -- string/string and bool/bool with an unsupported operator return the
-                           -- "Can't be recognized" error; every other miss leaves b as it was
-                           (match lv, rv with
-                            | .b _, .b _ => (.err (some p.line), e6)
-                            | _, _ => (.ok bv1, e6)))
-                      | (.err c, e6) => (.err c, e6)
-                      | (.panic, e6) => (.panic, e6))
-                   | (.err c, e5) => (.err c, e5)
-                   | (.panic, e5) => (.panic, e5))
-              match rc with
-              | (.err c, e5) => (.err c, e5)
-              | (.panic, e5) => (.panic, e5)
-              | (.ok bv, e5) =>
-                -- LAST: math, then atom, then b
-                let pick : Option Val := match skipNil mv with
-                  | some v => some v
-                  | none => match skipNil av with | some v => some v | none => skipNil bv
-                match pick with
-                | none => (.err (some p.line), e5)
-                | some v =>
-                  if notOp then
-                    (match v.bool? with
-                     | some x => (.ok (.b (!x)), e5)
-                     | none => (.panic, e5))            -- Value.Bool() on a non-bool
-                  else (.ok v, e5)
+      bindR (evalOMathOpt P env math) fun mv e1 =>
+      bindR (evalOAtomOpt P e1 atom) fun av e2 =>
+      bindR (if right.isNone then evalOExprOpt P e2 left else (.ok none, e2)) fun bv0 e3 =>
+      bindR (match logic with
+             | none => (.ok bv0, e3)
+             | some lop =>
+               bindR (evalOExprPanic P e3 left) fun lv e4 =>
+               bindR (evalOExprPanic P e4 right) fun rv e5 => (logicOf p lop lv rv, e5)) fun bv1 e4 =>
+      bindR (match cmp with
+             | none => (.ok bv1, e4)
+             | some cop =>
+               bindR (evalOExprPanic P e4 left) fun lv e5 =>
+               bindR (evalOExprPanic P e5 right) fun rv e6 => (cmpOf P p cop lv rv bv1, e6)) fun bv e5 =>
+      (lastPick p notOp mv av bv, e5)
 end
 
 /-! ### statements -/
@@ -347,40 +348,33 @@ inductive SRes
   | panic
 deriving Inhabited
 
-/-- Assignment.Evaluate, inside its `recover()`. -/
-def evalAssign (P : Params) (env : Env) (a : Assign) : Res Unit × Env :=
-  let cite := some a.pos.line
+/-- Everything `Assignment.Evaluate` does once the right-hand side is evaluated (`rhs`), inside
+    its `recover()`: compound operators read the target first, then the target is written.
+    Errors of the right-hand side keep their own cited line; every other fault cites the
+    assignment. -/
+def assignCore (P : Params) (line : Nat) (var : String) (mapv : Option MapV) (aop : AsOp)
+    (rhs : Res Val × Env) : Res Unit × Env :=
+  let cite := some line
   let recov : Res Unit × Env → Res Unit × Env := fun r => match r with
     | (.panic, e) => (if P.assignRecover then .err cite else .panic, e) | o => o
   recov <|
-    -- right-hand side: MathExpression first, then Expression (the later one wins)
-    let r1 : Res Val × Env := match a.math with
-      | .some m => evalMath P env m
-      | .none => (.ok .nil, env)
-    match r1 with
-    | (.err c, e1) => (.err c, e1)
-    | (.panic, e1) => (.panic, e1)
-    | (.ok mv1, e1) =>
-      let r2 : Res Val × Env := match a.expr with
-        | .some x => evalExpr P e1 x
-        | .none => (.ok mv1, e1)
-      match r2 with
-      | (.err c, e2) => (.err c, e2)
-      | (.panic, e2) => (.panic, e2)
-      | (.ok mv, e2) =>
+    match rhs with
+    | (.err c, e2) => (.err c, e2)
+    | (.panic, e2) => (.panic, e2)
+    | (.ok mv, e2) =>
         -- compound operators read the target first
-        let rv : Res Val := match a.op with
+        let rv : Res Val := match aop with
           | .set => .ok mv
           | op =>
             let cur : Res Val :=
-              if a.var != "" then (match getValue e2 a.var with | .ok v => .ok v | .err _ => .err cite | .panic => .panic)
-              else match a.mapv with
+              if var != "" then (match getValue e2 var with | .ok v => .ok v | .err _ => .err cite | .panic => .panic)
+              else match mapv with
                 | some m => (match evalMapV e2 m with | .ok v => .ok v | .err _ => .err cite | .panic => .panic)
                 | none => .ok .nil
             match cur with
             | .ok sv =>
-              let aop : AOp := match op with | .add => .add | .sub => .sub | .mul => .mul | _ => .div
-              (match goArith aop sv mv with
+              let o : AOp := match op with | .add => .add | .sub => .sub | .mul => .mul | _ => .div
+              (match P.arith o sv mv with
                | .ok v => .ok v | .err => .err cite | .panic => .panic)
             | .err c => .err c
             | .panic => .panic
@@ -388,10 +382,10 @@ def evalAssign (P : Params) (env : Env) (a : Assign) : Res Unit × Env :=
         | .err c => (.err c, e2)
         | .panic => (.panic, e2)
         | .ok nv =>
-          if a.var != "" then
-            (match setValue e2 a.var nv with
+          if var != "" then
+            (match setValue e2 var nv with
              | .ok e3 => (.ok (), e3) | .err _ => (.err cite, e2) | .panic => (.panic, e2))
-          else match a.mapv with
+          else match mapv with
             | none => (.ok (), e2)
             | some m =>
               -- DataContext.SetMapVarValue
@@ -431,6 +425,17 @@ def evalAssign (P : Params) (env : Env) (a : Assign) : Res Unit × Env :=
                   | .err c, _ => (.err c, e2)
                   | .panic, _ => (.panic, e2))
                | .ok _, _ => (.err cite, e2))
+
+/-- The right-hand side: MathExpression first, then Expression (the later one wins). -/
+def assignRhs (P : Params) (env : Env) (math : OMath) (expr : OExpr) : Res Val × Env :=
+  bindR (match math with | .some m => evalMath P env m | .none => (.ok .nil, env)) fun mv1 e1 =>
+    match expr with
+    | .some x => evalExpr P e1 x
+    | .none => (.ok mv1, e1)
+
+/-- Assignment.Evaluate. -/
+def evalAssign (P : Params) (env : Env) (a : Assign) : Res Unit × Env :=
+  assignCore P a.pos.line a.var a.mapv a.op (assignRhs P env a.math a.expr)
 
 /-- Iteration of ForStmt's loop on fuel. -/
 def forLoop (maxLoop : Nat) (cond : Env → Res Val × Env) (body : Option (Env → SRes × Env))
@@ -479,6 +484,14 @@ def rangeLoop (setKey : Env → Val → Res Env) (body : Option (Env → SRes ×
         | (.brk, e2) => (.normal, e2)
         | (.ret v, e2) => (.ret v, e2)
         | (.cont, e2) | (.normal, e2) => rangeLoop setKey body ks e2
+
+/-- NewInter: a slice or array injected by value iterates over its indexes, a map over its
+    keys; anything else is not iterable. -/
+def rangeKeys (env : Env) (coll : String) : Option (List Val) :=
+  match splitDots coll, env.lookupBase coll with
+  | [_], some (.slice false _ _ elems) => some ((List.range elems.length).map (fun i => Val.i .int (Int64.ofNat i)))
+  | [_], some (.map false _ _ entries) => some (entries.map (·.1))
+  | _, _ => none
 
 def evalConcItem (P : Params) (env : Env) : ConcItem → Res Unit × Env
   | .assign a => evalAssign P env a
@@ -532,11 +545,7 @@ mutual
       | .err _ => (.err (some p.line), env)
       | .panic => (.panic, env)
       | .ok _ =>
-        let keys : Option (List Val) := match splitDots coll, env.lookupBase coll with
-          | [_], some (.slice false _ _ elems) => some ((List.range elems.length).map (fun i => Val.i .int (Int64.ofNat i)))
-          | [_], some (.map false _ _ entries) => some (entries.map (·.1))
-          | _, _ => none
-        (match keys with
+        (match rangeKeys env coll with
          | none => (.err (some p.line), env)            -- not iterable
          | some ks =>
            rangeLoop (fun e k => setValue e key k)
@@ -594,15 +603,18 @@ structure RuleOut where
   val     : Val
   env     : Env
 
-/-- RuleEntity.Execute: fresh locals; break/continue outside a loop surface as errors. -/
-def ruleExecute (P : Params) (env : Env) (body : Stmts) : RuleOut :=
-  let env0 := { env with vars := [] }
-  match evalStmts P env0 body with
+/-- What the rule reports for the outcome of its body: a stray break / continue surfaces as an
+    error; an uncited fault is recovered (iff RuleEntity.Execute recovers) into an error. -/
+def ruleOutOf (P : Params) : SRes × Env → RuleOut
   | (.normal, e) => ⟨"ok", none, false, .nil, e⟩
   | (.ret v, e) => ⟨"ok", none, true, v, e⟩
   | (.err c, e) => ⟨"err", c, false, .nil, e⟩
   | (.brk, e) => ⟨"err", none, false, .nil, e⟩
   | (.cont, e) => ⟨"err", none, false, .nil, e⟩
   | (.panic, e) => if P.ruleRecover then ⟨"err", none, false, .nil, e⟩ else ⟨"panic", none, false, .nil, e⟩
+
+/-- RuleEntity.Execute: fresh locals. -/
+def ruleExecute (P : Params) (env : Env) (body : Stmts) : RuleOut :=
+  ruleOutOf P (evalStmts P { env with vars := [] } body)
 
 end GV.Eval
